@@ -33,10 +33,87 @@ def _loop_iter(ev, node):
     return None
 
 
+def _cache_seq(seq):
+    """A sequence that runs over the per-input cache dictionaries - the list itself, a slice of it, or a comprehension
+    [cache[field] for cache in <such a sequence>] - as (lo, hi, field or None): positions lo .. hi-1 of self._get_score_cache, with
+    hi None for "to the end of the list" (the list has one dictionary per input, climatology included)."""
+    if not isinstance(seq, Rat):
+        return None
+    if seq.key() == "$" + CACHE:
+        return Rat.const(0), None, None
+    at = seq.as_atom()
+    if at is None:
+        return None
+    if at.func == "getitem" and len(at.args) == 2 and isinstance(at.args[1], tuple) and at.args[1] and at.args[1][0] == "slice":
+        inner = _cache_seq(at.args[0])
+        if inner is None:
+            return None
+        lo0, hi0, fld = inner
+        _s, a, b, st = at.args[1]
+        if st != "None":
+            return None
+        lo = lo0 if a == "None" else (lo0 + a if isinstance(a, Rat) else None)
+        if lo is None:
+            return None
+        if b == "None":
+            hi = hi0
+        elif isinstance(b, Rat) and lo0.is_zero() and hi0 is None:
+            hi = b
+        elif isinstance(b, Rat) and lo0.is_zero() and hi0 is not None and hi0.equals(b):
+            hi = b
+        else:
+            return None
+        return lo, hi, fld
+    if at.func == "map" and len(at.args) == 2 and isinstance(at.args[0], Rat) and isinstance(at.args[1], Rat):
+        inner = _cache_seq(at.args[1])
+        body = at.args[0].as_atom("getitem")
+        if inner is None or inner[2] is not None or body is None or not isinstance(body.args[0], Rat) or not isinstance(body.args[1], Rat):
+            return None
+        el = body.args[0].as_atom()
+        if el is None or not el.func.startswith("elem") or not (el.args and isinstance(el.args[0], Rat) and el.args[0].key() == at.args[1].key()):
+            return None
+        return inner[0], inner[1], body.args[1]
+    return None
+
+
+def _cache_entry(x):
+    """cache[k][field] however it is reached: -> (k, field) with k a Rat (constant or symbol) or the string "elem" for "the element
+    of the loop that runs over the cache list"."""
+    if not isinstance(x, Rat):
+        return None
+    base, idx = q.getitem_chain(x)
+    if isinstance(base, Rat) and base.key() == "$" + CACHE and len(idx) == 2 and isinstance(idx[0], Rat):
+        return idx[0], idx[1]
+    at = x.as_atom()
+    if at is None:
+        return None
+    if at.func.startswith("elem") and at.args and isinstance(at.args[0], Rat):
+        cs = _cache_seq(at.args[0])
+        if cs is not None and cs[2] is not None:
+            return "elem", cs[2]                       # element of [cache[field] for cache in ...]
+    if at.func == "getitem" and len(at.args) == 2 and isinstance(at.args[0], Rat) and isinstance(at.args[1], Rat):
+        inner = at.args[0].as_atom()
+        if inner is not None and inner.func.startswith("elem") and inner.args and isinstance(inner.args[0], Rat):
+            cs = _cache_seq(inner.args[0])
+            if cs is not None and cs[2] is None:
+                return "elem", at.args[1]              # cache[field] with cache the element of a loop over the list
+        cs = _cache_seq(at.args[0])
+        if cs is not None and cs[2] is not None:
+            return cs[0] + at.args[1], cs[2]           # arrays[k]
+        if inner is not None and inner.func == "getitem" and len(inner.args) == 2 and isinstance(inner.args[0], Rat) and isinstance(inner.args[1], Rat):
+            cs = _cache_seq(inner.args[0])
+            if cs is not None and cs[2] is None:
+                return cs[0] + inner.args[1], at.args[1]   # caches[k][field]
+    return None
+
+
 def _range_bounds(it):
-    """(start, stop) of a range(...) iterator value, or None."""
+    """(start, stop) of a range(...) iterator value - or of a sequence over the cache dictionaries (stop = all inputs) - or None."""
     at = it.as_atom("call:range") if isinstance(it, Rat) else None
     if at is None:
+        cs = _cache_seq(it) if isinstance(it, Rat) else None
+        if cs is not None:
+            return cs[0], (cs[1] if cs[1] is not None else form.apply(NWC, []))
         return None
     if len(at.args) == 1:
         return Rat.const(0), at.args[0]
@@ -67,6 +144,21 @@ def check_get_score(ctx):
     ctx.need(stores, "%s: no store into the per-input cache found" % site)
     loaders = [e for e in stores if len(e["indices"]) == 2]
     masks = [e for e in stores if len(e["indices"]) == 3]
+    # the same stores made through a loop variable that runs over the cache dictionaries (for cache in caches: cache[field][mask] = nan)
+    # or over their arrays (for array in [c[field] for c in caches]: array[mask] = nan), brought to the indexed form
+    for e in trace.stores(ev):
+        old_ = e.get("old")
+        oa = old_.as_atom() if isinstance(old_, Rat) else None
+        if e["root"] == CACHE or oa is None or not oa.func.startswith("elem") or not (oa.args and isinstance(oa.args[0], Rat)):
+            continue
+        cs = _cache_seq(oa.args[0])
+        if cs is None:
+            continue
+        pos = Rat.sym("pos:" + oa.func)
+        if cs[2] is None and len(e["indices"]) == 2:
+            masks.append(dict(e, root=CACHE, indices=[pos, e["indices"][0], e["indices"][1]]))
+        elif cs[2] is not None and len(e["indices"]) == 1:
+            masks.append(dict(e, root=CACHE, indices=[pos, cs[2], e["indices"][0]]))
     ctx.need(loaders and masks, "%s: loader / propagation stores not recognised" % site)
 
     # ---- C01.3 / C01.4: per-input discipline of what is loaded ---------------------------------
@@ -185,11 +277,11 @@ def check_get_score(ctx):
         shape_ok = True
         for mem in members:
             at = q.top(mem, "isnan")
-            base, idx = q.getitem_chain(at.args[0]) if at is not None else (None, [])
-            if at is None or not (isinstance(base, Rat) and base.key() == "$" + CACHE and len(idx) == 2 and idx[1].equals(fld)):
+            ent = _cache_entry(at.args[0]) if at is not None and at.args else None
+            if ent is None or not (isinstance(ent[1], Rat) and ent[1].equals(fld)):
                 shape_ok = False
             else:
-                ks.append(idx[0])
+                ks.append(ent[0] if isinstance(ent[0], Rat) else Rat.sym("pos:elem"))
         ctx.ob("C01.1", site, shape_ok and len(ks) >= 2, "%s: mask is the OR of isnan(cache[k][field]) of the same field" % tag, loc=loc,
                msg="the missing-value mask is %s" % str(mask)[:300],
                sample={"rule": "C01.1", "branch": tag, "mask": str(mask)[:300]})
